@@ -241,7 +241,8 @@ theorem authorize_store (st uid et ok) :
   simp [dispatched_of_pi (pi_store et ok), pi_store]
 
 theorem authorize_query (st uid h t) :
-    authorize st true uid (.query h t) = checkId uid (fun u => canRead st u h) := by
+    authorize st true uid (.query h t) =
+      checkId uid (fun u => canRead st u h && t.all (fun e => canRead st u e)) := by
   unfold authorize
   simp [dispatched_of_pi (pi_query h t), pi_query]
 
@@ -278,21 +279,21 @@ theorem write_needs_permission (st : State) (uid : Option Str) (c : Cmd)
 
 theorem read_needs_permission (all : List Str) (st : State) (uid : Option Str) (c : Cmd)
     (h : authorize st true uid c = .proceed) (hid : passesIdentity c = true)
-    (hseq : seqTail c = []) (hby : uid ≠ some bypassUserId) :
+    (hby : uid ≠ some bypassUserId) :
     ∀ et ∈ readsOf all c, ∃ u, uid = some u ∧ specRead st u et = true := by
   intro et het
   cases c with
   | query hd t =>
-    simp only [seqTail] at hseq
-    subst hseq
-    simp only [readsOf, List.mem_singleton] at het
-    subst het
+    simp only [readsOf, List.mem_cons] at het
     rw [authorize_query] at h
     obtain ⟨u, hu, hr⟩ := checkId_proceed h
     refine ⟨u, hu, ?_⟩
     rcases hr with hb | hr
     · subst hb; exact absurd hu hby
-    · exact canRead_spec hr
+    · simp only [Bool.and_eq_true, List.all_eq_true] at hr
+      rcases het with rfl | het
+      · exact canRead_spec hr.1
+      · exact canRead_spec (hr.2 et het)
   | compare a => rw [pi_compare] at hid; cases hid
   | replay a => rw [pi_replay] at hid; cases hid
   | remember a b c => rw [pi_remember] at hid; cases hid
@@ -323,7 +324,7 @@ theorem rightless_inert (st : State) (id : Str) (u : User) (c : Cmd)
     simp [checkId, hrt, hby]
   cases c with
   | store et ok => rw [authorize_store]; exact key _ (hW et)
-  | query h t => rw [authorize_query]; exact key _ (hR h)
+  | query h t => rw [authorize_query]; exact key _ (by simp [hR h])
   | compare a => rw [pi_compare] at hid; cases hid
   | replay a => rw [pi_replay] at hid; cases hid
   | remember a b c => rw [pi_remember] at hid; cases hid
@@ -607,7 +608,7 @@ theorem revoke_all_forbids (st : State) (id et : Str) (tail : List Str) (ok : Bo
     have hW : canWrite st' id et = false := by
       simp [canWrite, hf, hadm', hp]
     rw [authorize_query, authorize_store]
-    exact ⟨checkId_forbidden id _ hby hR, checkId_forbidden id _ hby hW⟩
+    exact ⟨checkId_forbidden id _ hby (by simp [hR]), checkId_forbidden id _ hby hW⟩
 
 theorem revoke_single (st : State) (id et : Str) (tail : List Str) (ok : Bool)
     (hex : (findUser st id).isSome = true) (hna : isAdmin st id = false) (hby : id ≠ bypassUserId) :
@@ -644,6 +645,8 @@ theorem revoke_single (st : State) (id et : Str) (tail : List Str) (ok : Bool)
       rcases hr with hb | hr
       · exact absurd hb hby
       · refine ⟨u, rfl, ?_⟩
+        simp only [Bool.and_eq_true] at hr
+        have hr := hr.1
         simp only [canRead, hf, hadm', hp, hro, hed] at hr
         cases h1 : hasRole u readOnlyRoles <;> cases h2 : hasRole u editorRoles <;> simp_all
 
@@ -891,7 +894,7 @@ theorem denied_forbids (st : State) (id et : Str) (tail : List Str) (ok : Bool)
   have hR : canRead st id et = false := by simp [canRead, hf, ha, hp]
   have hW : canWrite st id et = false := by simp [canWrite, hf, ha, hp]
   rw [authorize_query, authorize_store]
-  exact ⟨checkId_forbidden id _ hby hR, checkId_forbidden id _ hby hW⟩
+  exact ⟨checkId_forbidden id _ hby (by simp [hR]), checkId_forbidden id _ hby hW⟩
 
 theorem revoke_all_denied (st : State) (id et : Str)
     (hex : (findUser st id).isSome = true) (hna : isAdmin st id = false) :
@@ -912,6 +915,158 @@ theorem revoked_permission_stays (alnum : Char → Bool) (cfg : Cfg) (st : State
     authorize (applyLater alnum cfg (revokeLoop st true true id [et]).2 later) true (some id) (.store et ok) = .forbidden :=
   denied_forbids _ id et tail ok hby
     (denied_applyLater alnum cfg id et later _ hno (revoke_all_denied st id et hex hna))
+
+/-! ### no account named `bypass` is ever created -/
+
+theorem validate_ok_not_bypass (alnum : Char → Bool) (id : Str) (h : validateUserId alnum id = .ok) :
+    id ≠ bypassUserId := by
+  intro e
+  subst e
+  have hres : bypassUserId ∈ reservedIds := by decide
+  have hne : bypassUserId.isEmpty = false := by decide
+  simp [validateUserId, hres, hne] at h
+
+theorem noBypass_put (st : State) (v : User) (hv : v.id ≠ bypassUserId) (st' : State)
+    (hst : st'.users = putUser st.users v) (h : NoBypassAccount st) : NoBypassAccount st' := by
+  unfold NoBypassAccount findUser at h ⊢
+  rw [hst, find_putUser_other st.users v bypassUserId (fun e => hv e.symm)]
+  exact h
+
+theorem found_not_bypass {st : State} {id : Str} {w : User} (h : NoBypassAccount st)
+    (hf : findUser st id = some w) : w.id ≠ bypassUserId := by
+  intro e
+  have hid := (findUser_some hf).2
+  rw [e] at hid
+  rw [← hid] at hf
+  unfold NoBypassAccount at h
+  rw [h] at hf
+  cases hf
+
+theorem noBypass_createUser (alnum : Char → Bool) (st : State) (id key : Str) (roles : List Str)
+    (h : NoBypassAccount st) : NoBypassAccount (createUser alnum st id key roles).2 := by
+  unfold createUser
+  cases hv : validateUserId alnum id with
+  | invalid => exact h
+  | tooLong => exact h
+  | ok =>
+    simp only
+    split
+    · exact h
+    · cases hf : findUser st id with
+      | some x => exact h
+      | none =>
+        simp only
+        exact noBypass_put st ⟨id, key, true, roles, []⟩ (validate_ok_not_bypass alnum id hv) _ rfl h
+
+theorem noBypass_revokeKey (st : State) (id : Str) (h : NoBypassAccount st) :
+    NoBypassAccount (revokeKey st id).2 := by
+  unfold revokeKey
+  cases hf : findUser st id with
+  | none => exact h
+  | some w =>
+    simp only
+    exact noBypass_put st { w with active := false } (show w.id ≠ bypassUserId from found_not_bypass h hf) _ rfl h
+
+theorem noBypass_setPermission (st : State) (id et : Str) (p : Perm) (h : NoBypassAccount st) :
+    NoBypassAccount (setPermission st id et p).2 := by
+  unfold setPermission
+  cases hf : findUser st id with
+  | none => exact h
+  | some w =>
+    simp only
+    exact noBypass_put st { w with perms := putPerm w.perms et p } (show w.id ≠ bypassUserId from found_not_bypass h hf) _ rfl h
+
+theorem noBypass_dropPermission (st : State) (id et : Str) (h : NoBypassAccount st) :
+    NoBypassAccount (dropPermission st id et).2 := by
+  unfold dropPermission
+  cases hf : findUser st id with
+  | none => exact h
+  | some w =>
+    simp only
+    exact noBypass_put st { w with perms := w.perms.filter (fun p => !(p.1 == et)) } (show w.id ≠ bypassUserId from found_not_bypass h hf) _ rfl h
+
+theorem noBypass_grantLoop (want : Perm) (user : Str) : ∀ (ets : List Str) (st : State),
+    NoBypassAccount st → NoBypassAccount (grantLoop st want user ets).2 := by
+  intro ets
+  induction ets with
+  | nil => intro st h; exact h
+  | cons e ets ih =>
+    intro st h
+    have hone : NoBypassAccount (grantOne st want user e).2 := noBypass_setPermission st user e _ h
+    unfold grantLoop
+    split
+    · exact h
+    · cases hsp : grantOne st want user e with
+      | mk r st' =>
+        rw [hsp] at hone
+        cases r <;> first | exact ih st' hone | exact hone
+
+theorem noBypass_revokeLoop (rr rw : Bool) (user : Str) : ∀ (ets : List Str) (st : State),
+    NoBypassAccount st → NoBypassAccount (revokeLoop st rr rw user ets).2 := by
+  intro ets
+  induction ets with
+  | nil => intro st h; exact h
+  | cons e ets ih =>
+    intro st h
+    have hone : NoBypassAccount (revokeOne st rr rw user e).2 := noBypass_setPermission st user e _ h
+    unfold revokeLoop
+    cases hsp : revokeOne st rr rw user e with
+    | mk r st' =>
+      rw [hsp] at hone
+      cases r <;> first | exact ih st' hone | exact hone
+
+theorem noBypass_exec (alnum : Char → Bool) (st : State) (c : Cmd) (h : NoBypassAccount st) :
+    NoBypassAccount (exec alnum st c).2 := by
+  by_cases hc : (match c with | .createUser .. | .revokeKey _ | .grant .. | .revoke .. => False | _ => True)
+  · unfold NoBypassAccount findUser at h ⊢
+    rw [(exec_users_simple alnum st c hc).1]
+    exact h
+  · cases c <;> simp only [not_true_eq_false, not_false_eq_true] at hc
+    · rename_i a b c
+      have := noBypass_createUser alnum st a b c h
+      simp only [exec]
+      cases hsp : createUser alnum st a b c with
+      | mk r st' => rw [hsp] at this; cases r <;> exact this
+    · rename_i a
+      have := noBypass_revokeKey st a h
+      simp only [exec]
+      cases hsp : revokeKey st a with
+      | mk r st' => rw [hsp] at this; cases r <;> exact this
+    · rename_i ps ets u
+      simp only [exec]
+      split
+      · exact h
+      · exact noBypass_grantLoop _ u ets st h
+    · rename_i ps ets u
+      exact noBypass_revokeLoop _ _ u ets st h
+
+theorem noBypass_applyOne (alnum : Char → Bool) (cfg : Cfg) (st : State) (l : Later)
+    (h : NoBypassAccount st) : NoBypassAccount (applyOne alnum cfg st l) := by
+  cases l with
+  | cmd c => exact noBypass_exec alnum st c h
+  | mint now user tok => exact h
+  | mk a b c => exact noBypass_createUser alnum st a b c h
+  | setPerm a b p => exact noBypass_setPermission st a b p h
+  | dropPerm a b => exact noBypass_dropPermission st a b h
+  | revKey a => exact noBypass_revokeKey st a h
+
+theorem noBypass_applyLater (alnum : Char → Bool) (cfg : Cfg) : ∀ (ls : List Later) (st : State),
+    NoBypassAccount st → NoBypassAccount (applyLater alnum cfg st ls) := by
+  intro ls
+  induction ls with
+  | nil => intro st h; exact h
+  | cons l ls ih => intro st h; exact ih _ (noBypass_applyOne alnum cfg st l h)
+
+theorem noBypass_empty : NoBypassAccount State.empty := rfl
+
+/-- An identity that names an account of a state without a `bypass` account is not `bypass`. -/
+theorem account_not_bypass {st : State} {uid : Option Str} (h : NoBypassAccount st)
+    (hacc : ∀ u, uid = some u → (findUser st u).isSome = true) : uid ≠ some bypassUserId := by
+  intro e
+  have := hacc bypassUserId e
+  unfold NoBypassAccount at h
+  rw [h] at this
+  cases this
 
 /-! ### hex tokens and payload text -/
 
